@@ -39,8 +39,9 @@ type c11Op struct {
 }
 
 type c11Input struct {
-	Mode string  `json:"mode"` // inject | timer
-	Ops  []c11Op `json:"ops"`
+	Mode string  `json:"mode"` // inject | timer | slipin
+	Ops  []c11Op `json:"ops,omitempty"`
+	N    int     `json:"n,omitempty"` // slipin: rounds
 }
 
 const c11TimerTimeout = 20 * time.Millisecond
@@ -726,6 +727,101 @@ func c11RunSchedule(t *testing.T, w *vWriter, in c11Input, gen func(e *c11Env) (
 	w.Emit(vc)
 }
 
+// ---------------------------------------------------------------- free-running family: an Open slips in
+//
+// The reaper goroutine is parked behind stream A.  A is closed and, at the same moment, a new Open
+// is issued: both calls are made to queue on the lock's internal mutex (held by the driver for an
+// instant), Close first, so that the new reader usually gets in after the Broadcast but before the
+// woken reaper has re-acquired the mutex - the reaper must then look again and keep waiting.
+// Oracle only (two concurrent calls are not a sequencer step of the model): never a reap with an
+// open stream, the reader count is right, the reaper is not stuck.
+func c11RunSlipIn(t *testing.T, w *vWriter, in c11Input) {
+	e, err := c11NewEnv(t, "inject")
+	if err != nil {
+		w.Emit(VCase{Input: in, Key: vJSON(in), Inconcl: "setup: " + err.Error()})
+		return
+	}
+	defer func() {
+		w.mu.Lock()
+		w.w.Flush()
+		w.mu.Unlock()
+	}()
+	defer e.cleanup()
+	v := reflect.ValueOf(e.store.mrsw).Elem()
+	mu := (*sync.Mutex)(unsafe.Pointer(v.FieldByName("mu").UnsafeAddr()))
+	slipped, reaperFirst := 0, 0
+	for k := 0; k < in.N && e.fail == ""; k++ {
+		if r := e.do(c11Op{Op: "open"}); r.obs != "OOk" {
+			e.setFail("C11:open-spurious-conflict", "Open refused on an idle store")
+			break
+		}
+		a := len(e.streams) - 1
+		if r := e.do(c11Op{Op: "loopbegin"}); r.obs != "OBlocked" {
+			if e.fail == "" {
+				e.setFail("C11:reap-with-open-stream", fmt.Sprintf("round %d: the reaper did not wait behind an open stream (%s)", k, r.obs))
+			}
+			break
+		}
+		// the race
+		mu.Lock()
+		var wg sync.WaitGroup
+		var rc io.ReadCloser
+		var openErr error
+		wg.Add(2)
+		go func() { defer wg.Done(); c11Call(e.streams[a].rc.Close) }()
+		time.Sleep(200 * time.Microsecond) // Close queues on the mutex first
+		go func() { defer wg.Done(); _, rc, openErr = e.store.Open(e.lastID) }()
+		time.Sleep(200 * time.Microsecond)
+		mu.Unlock()
+		wg.Wait()
+		e.streams[a].closed = true
+		if openErr == nil {
+			e.streams = append(e.streams, &c11Stream{rc: rc, ls: rc.(*LockingStreamer), id: e.lastID, lastRead: time.Now()})
+		} else {
+			e.streams = append(e.streams, &c11Stream{})
+		}
+		if !e.settle() {
+			e.setFail("C11:stuck", fmt.Sprintf("round %d: no quiescence within 20 s after Close || Open", k))
+			break
+		}
+		nr, owner := c11Lock(e.store)
+		switch {
+		case e.loop == "reaping" && e.nOpen() > 0, owner != "" && nr > 0:
+			e.setFail("C11:reap-with-open-stream", fmt.Sprintf("round %d: stream A closed while a new Open slipped in: the reaper is reaping (owner %q) with %d streams open, reader count %d", k, owner, e.nOpen(), nr))
+		case nr != e.nOpen():
+			e.setFail("C11:reader-count", fmt.Sprintf("round %d: lock reader count %d, open streams %d", k, nr, e.nOpen()))
+		case e.loop == "waiting" && e.nOpen() == 0:
+			e.setFail("C11:reaper-stuck", fmt.Sprintf("round %d: the reaper is still waiting although no stream is open", k))
+		case openErr != nil && e.loop != "reaping":
+			e.setFail("C11:open-spurious-conflict", fmt.Sprintf("round %d: Open refused (%v) although nobody is reaping", k, openErr))
+		}
+		if e.fail != "" {
+			break
+		}
+		if openErr == nil {
+			slipped++
+			// the reaper kept waiting; the new stream leaves and the reaper gets in
+			e.do(c11Op{Op: "close", I: len(e.streams) - 1})
+			if !e.settle() || e.loop != "reaping" {
+				e.setFail("C11:reaper-stuck", fmt.Sprintf("round %d: the reaper did not start after the last stream closed (state %s)", k, e.loop))
+				break
+			}
+		} else {
+			reaperFirst++
+		}
+		if r := e.do(c11Op{Op: "loopend"}); r.obs != "OOk" {
+			e.setFail("C11:stuck", fmt.Sprintf("round %d: the reaper did not finish", k))
+			break
+		}
+	}
+	vc := VCase{Input: in, Key: fmt.Sprintf("slipin:%d:%d", slipped, reaperFirst), Nontrivial: slipped > 0,
+		Tags: []string{"slip-in", fmt.Sprintf("slip-in-reader-first=%d", slipped), fmt.Sprintf("slip-in-reaper-first=%d", reaperFirst)}}
+	if e.fail != "" {
+		vc.OracleFail, vc.Sig = e.fail, e.sig
+	}
+	w.Emit(vc)
+}
+
 func c11Gen(rng *rand.Rand, mode string) func(e *c11Env) (c11Op, bool) {
 	n := 6 + rng.Intn(7)
 	issued := 0
@@ -815,7 +911,11 @@ func TestVerif_C11(t *testing.T) {
 		if err := json.Unmarshal(raw, &in); err != nil {
 			t.Fatal(err)
 		}
-		c11RunSchedule(t, w, in, nil)
+		if in.Mode == "slipin" {
+			c11RunSlipIn(t, w, in)
+		} else {
+			c11RunSchedule(t, w, in, nil)
+		}
 		return
 	}
 	for _, in := range []c11Input{
@@ -825,6 +925,9 @@ func TestVerif_C11(t *testing.T) {
 		{Mode: "timer", Ops: []c11Op{{Op: "open"}, {Op: "open"}, {Op: "loopbegin"}, {Op: "read", I: 0}, {Op: "waitfire"}, {Op: "read", I: 0}, {Op: "close", I: 1}, {Op: "loopend"}, {Op: "open"}, {Op: "raceclose", I: 2}, {Op: "reapbegin"}, {Op: "reapend"}}},
 	} {
 		c11RunSchedule(t, w, in, nil)
+	}
+	for i := 0; i < vN(3, 40); i++ {
+		c11RunSlipIn(t, w, c11Input{Mode: "slipin", N: 60})
 	}
 	n := vN(200, 5000)
 	for i := 0; i < n; i++ {
